@@ -20,9 +20,10 @@ def sh(cmd, cwd=None, env=None, timeout=1200):
     return r.returncode, (r.stdout + r.stderr)
 
 
-def confirm(pid, m):
-    src = "/tmp/mut_%s.out/%s" % (pid, m)
-    wt = "/tmp/confirm_%s_%s" % (pid, m)
+def confirm(pid, m, src=None, name=None):
+    src = src or "/tmp/mut_%s.out/%s" % (pid, m)
+    name = name or m
+    wt = "/tmp/confirm_%s_%s" % (pid, name)
     sh("git -C /repo worktree remove --force %s" % wt)
     rc, out = sh("git -C /repo worktree add -q --detach %s HEAD" % wt)
     assert rc == 0, out
@@ -44,7 +45,7 @@ def confirm(pid, m):
         ok = res["demo_clean_rc"] == 0 and res["apply_rc"] == 0 and suite_ok and res["demo_mutant_rc"] != 0
         res["confirmed"] = ok
         if ok:
-            dst = os.path.join(VERIF, "seeded", "%s_%s" % (pid, m))
+            dst = os.path.join(VERIF, "seeded", "%s_%s" % (pid, name))
             os.makedirs(dst, exist_ok=True)
             for f in ("patch.diff", "demo.py", "notes.md"):
                 if os.path.exists(os.path.join(src, f)):
@@ -65,6 +66,13 @@ def confirm(pid, m):
 
 if __name__ == "__main__":
     args = sys.argv[1:]
+    if args and args[0] == "--batch2":
+        # confirm_seed.py --batch2 C01 C02 ...   (sources /tmp/mut2_<id>.out/m1|m2, filed as <id>_m3|m4)
+        for pid in args[1:]:
+            for m, name in (("m1", "m3"), ("m2", "m4")):
+                r = confirm(pid, m, src="/tmp/mut2_%s.out/%s" % (pid, m), name=name)
+                print(json.dumps({k: v for k, v in r.items() if k != "demo_mutant_tail"}))
+        sys.exit(0)
     for i in range(0, len(args), 2):
         r = confirm(args[i], args[i + 1])
         print(json.dumps({k: v for k, v in r.items() if k != "demo_mutant_tail"}))
